@@ -138,6 +138,22 @@ def order_and_stale(ctx, rep):
             if isinstance(call, ast.Call) and call_name(call) in UNORDERED and call.args:
                 if any(isinstance(x, ast.Attribute) and x.attr in WIRE_ATTRS for x in ast.walk(call.args[0])):
                     bad = call
+        # a measurement class that indexes its stored wires as a partition (`self.raw_wires[0]`, `self._wires[1]` in its other methods:
+        # mutual_info's two subsystems) must hash the partition: the merged `wires` is the same for (wires0=[0], wires1=[1, 2]) and
+        # (wires0=[0, 1], wires1=[2])
+        if bad is None:
+            partition = any(isinstance(x, ast.Subscript) and isinstance(x.value, ast.Attribute) and x.value.attr in ("raw_wires", "_wires")
+                            and isinstance(x.value.value, ast.Name) and x.value.value.id == "self" and isinstance(x.slice, ast.Constant)
+                            for nm_, fl_ in c.methods.items() if nm_ != "__hash__" for g_ in fl_ for x in ast.walk(g_.node))
+            reads_raw = any(isinstance(x, ast.Attribute) and x.attr in ("raw_wires", "_wires") for x in ast.walk(h.node))
+            if partition and not reads_raw:
+                merged = next((x for x in ast.walk(h.node) if isinstance(x, ast.Attribute) and x.attr == "wires"), None)
+                if merged is not None:
+                    rep.refuted("R-C05-order", rel, h.qualname, merged,
+                                f"{c.name} keeps its wires as a partition into subsystems (it indexes `raw_wires[i]` elsewhere) but hashes only the merged "
+                                "`wires`: measurements that split the same wires differently (wires0=[0], wires1=[1, 2] / wires0=[0, 1], wires1=[2]) share "
+                                "a tape hash and the cached value of one is returned for the other", line=merged.lineno)
+                    continue
         if bad is not None:
             rep.refuted("R-C05-order", rel, h.qualname, bad,
                         f"`{norm(bad)[:70]}` drops the order of the wires from the hash: measurements that differ only in wire order "
@@ -146,6 +162,35 @@ def order_and_stale(ctx, rep):
         else:
             rep.proved("R-C05-order", f"{rel}:{h.qualname}", "wires enter the fingerprint in their own order")
     rep.floor("__hash__ implementations reading wires", n, 4)
+
+    rep.rule("R-C05-multiset", "an operator __hash__ that forgets the order of its operands (Sum: addition commutes) still keeps their multiplicities: "
+             "set()/frozenset() is applied to Counter(operands).items() (or to sorted/grouped pairs), never to the operands themselves — "
+             "X+X+Z and X+Z+Z are different operators")
+    n_ms = 0
+    for c in ix.classes:
+        rel = c.module.relpath
+        if not rel.startswith("pennylane/") or "/tests/" in rel or "/labs/" in rel:
+            continue
+        h = c.own_method("__hash__")
+        if h is None or not {b.name for b in c.mro()} & {"Operator", "Operator2"}:
+            continue
+        for call in [x for x in ast.walk(h.node) if isinstance(x, ast.Call) and call_name(x) in ("frozenset", "set") and x.args]:
+            arg = call.args[0]
+            names = {x.attr for x in ast.walk(arg) if isinstance(x, ast.Attribute)} | {x.id for x in ast.walk(arg) if isinstance(x, ast.Name)}
+            if not names & {"operands", "ops", "_ops", "summands", "factors"}:
+                continue
+            n_ms += 1
+            rep.analysed(rel, h.qualname)
+            counted = any(isinstance(x, ast.Call) and (call_name(x) or "").split(".")[-1] == "Counter" for x in ast.walk(arg))
+            if counted:
+                rep.proved("R-C05-multiset", f"{rel}:{h.qualname}", "unordered hash over (operand, multiplicity) pairs")
+            elif isinstance(arg, (ast.Attribute, ast.Name)) or (isinstance(arg, ast.Call) and call_name(arg) in ("tuple", "list")):
+                rep.refuted("R-C05-multiset", rel, h.qualname, call,
+                            f"`{norm(call)[:60]}` hashes the set of operands: repeated terms collapse, so X0+X0+Z1, X0+Z1+Z1 and X0+Z1 share a hash "
+                            "(un-simplified sums and Hamiltonians with a repeated term collide in the execution cache)", line=call.lineno)
+            else:
+                rep.unknown("R-C05-multiset", f"{rel}:{h.qualname}", f"`{norm(call)[:60]}` not classified")
+    rep.floor("operator hashes that forget operand order", n_ms, 1)
 
     rep.rule("R-C05-stale", "QuantumScript.copy(**update) carries a memoised `hash` to the new script only under a guard that excludes an update of "
              "every constructor input the fingerprint reads (operations, measurements, shots, trainable_params); "
